@@ -546,3 +546,33 @@ def import_binding_rule(ctx, res, rule: str) -> None:
     idx.need_class("rope.base.pyobjectsdef._ScopeVisitor")
     idx.need_class("rope.refactor.extract._FunctionInformationCollector")
     res.analysed[f"{rule}_import_handlers"] = n
+
+
+def pair_component(fn_node, expr, producers) -> Optional[int]:
+    """Which component (0 / 1) of the pair returned by a call to one of `producers` does `expr` denote inside the function:
+    `producer(...)[k]`, or a name bound by `a, b = producer(...)` / `a = producer(...)[k]`.  None when it is neither."""
+    def direct(e):
+        if isinstance(e, ast.Subscript) and isinstance(e.slice, ast.Constant) and e.slice.value in (0, 1, -1, -2) \
+                and isinstance(e.value, ast.Call) and call_name(e.value) in producers:
+            return e.slice.value % 2
+        return None
+
+    k = direct(expr)
+    if k is not None:
+        return k
+    if isinstance(expr, ast.Name):
+        found = set()
+        for x in walk_local(fn_node):
+            if not isinstance(x, ast.Assign) or len(x.targets) != 1:
+                continue
+            t = x.targets[0]
+            if isinstance(t, ast.Tuple) and len(t.elts) == 2 and isinstance(x.value, ast.Call) and call_name(x.value) in producers:
+                for i, el in enumerate(t.elts):
+                    if isinstance(el, ast.Name) and el.id == expr.id:
+                        found.add(i)
+            elif isinstance(t, ast.Name) and t.id == expr.id:
+                d = direct(x.value)
+                found.add(d if d is not None else -1)
+        if len(found) == 1 and -1 not in found:
+            return found.pop()
+    return None
